@@ -262,6 +262,34 @@ def run(ctx, model):
                 "what": f"style {c['style']}: cell (y,x)={bad['cell_yx']} decodes to {bad['decoded']}, the statement requires {bad['expected']}",
                 "case": {"kind": "render", "case": c, "screen": scr}, "observed": bad, "impl_bytes": hexs(b"".join(impl_res[i][1]))[:2000]})
     cov.bump("oracle-evaluations", len(todo))
+    # ---- 3b. the same placeholder printed twice side by side: the second copy starts right of cells that hold the SAME image
+    # id / placement id / row, so every rule by which a terminal INHERITS a missing diacritic from the cell on the left is
+    # live for its first column (on an empty screen those rules never fire for a first column)
+    twice = []
+    for i, scr in todo:
+        c = cases[i]
+        w, h = c["c1"] - c["c0"], c["r1"] - c["r0"]
+        if c["style"] in ("abs", "lf") or scr["y0"] + h > scr["H"]:
+            continue
+        if c["mode"][3] < 2:
+            continue    # first_column_diacritic_level ROW: the caller chose to leave the first column's column number to inheritance
+        one = b"".join(impl_res[i][1])
+        cup = b"\x1b[%d;%dH" % (scr["y0"] + 1, scr["x0"] + w + 1)
+        wide = dict(scr, W=scr["x0"] + 2 * w + 1)      # room for the second copy; the first one is not at the right margin any more
+        twice.append((i, wide, one + cup + one))
+    rend2 = model.batch([pc.render_request(s["W"], s["H"], s["cur"][0], s["cur"][1], cases[i]["style"] == "lf", data) for i, s, data in twice]) if twice else []
+    for (i, scr, data), rep in zip(twice, rend2):
+        c = cases[i]
+        w = c["c1"] - c["c0"]
+        exp = pc.expected_cells(c, scr["W"], scr["H"], scr["x0"], scr["y0"], scrolls=False)
+        exp.update(pc.expected_cells(c, scr["W"], scr["H"], scr["x0"] + w, scr["y0"], scrolls=False))
+        d = pc.first_diff(exp, pc.parse_render(rep)["cells"])
+        cov.bump(f"oracle/twice-side-by-side/{c['style']}")
+        if d is not None:
+            ctx.violations.append({
+                "signature": {"class": "decode-mismatch", "style": c["style"], "scenario": "same placeholder twice side by side"},
+                "what": f"style {c['style']}, the same placeholder printed twice side by side: cell (y,x)={d['cell_yx']} decodes to {d['decoded']}, the statement requires {d['expected']}",
+                "case": {"kind": "render-twice", "case": c, "screen": scr}, "observed": d, "impl_bytes": hexs(data)[:2000]})
     highlevel_display(ctx, model, cov)
     if len(todo) * 10 < len(ok_idx):
         ctx.notes.append(f"Spec oracle ran on {len(todo)} of {len(ok_idx)} successful cases (< 10 %)")
